@@ -16,7 +16,7 @@ from .. import respparse
 from ..driver import Ctx
 from ..explore import _digest
 from ..report import Violation, finish
-from ..worlds import DictWorld
+from ..worlds import DictWorld, scratch_parent
 
 PROP = 'C03'
 
@@ -25,8 +25,13 @@ def lit(b):
     return b'{%d+}\r\n%s' % (len(b), b)
 
 
-def make_world():
-    w = DictWorld(users={'alice': ('pw', ())})
+def make_world(kind='dict'):
+    if kind == 'dict':
+        w = DictWorld(users={'alice': ('pw', ())})
+    else:
+        from ..worlds import MaildirWorld
+        w = MaildirWorld(layout=kind, users={'alice': ('pw', ())},
+                         jail_cheap=True)
     ctx = Ctx(w)
     ctx.connect()
     assert ctx.do(0, b'LOGIN alice pw').cond == 'OK'
@@ -59,7 +64,7 @@ def partials(n: int):
 
 
 def check_message(ctx, b: bytes, out, *, copies=True, site_extra=''):
-    sh = shape(b) + site_extra
+    sh = site_extra + shape(b)
 
     def bad(rule, msg):
         out.append(Violation(rule, sh, msg, replay={'message': b}))
@@ -87,6 +92,14 @@ def check_message(ctx, b: bytes, out, *, copies=True, site_extra=''):
     if d.get('RFC822.SIZE') != len(b):
         bad('size-differs', f'RFC822.SIZE {d.get("RFC822.SIZE")} for '
             f'{len(b)} bytes {b!r:.80}')
+    # the size asked for on its own (a backend may answer it without loading
+    # the content) and through the FAST macro
+    for items2 in (b'(RFC822.SIZE)', b'FAST'):
+        s2 = ctx.do(0, b'FETCH * ' + items2)
+        for r in s2.untagged('FETCH'):
+            if 'RFC822.SIZE' in r.data and r.data['RFC822.SIZE'] != len(b):
+                bad('size-differs', f'FETCH {items2.decode()}: RFC822.SIZE '
+                    f'{r.data["RFC822.SIZE"]} for {len(b)} bytes {b!r:.80}')
     h = d.get(('BODY', b'HEADER', None)) or b''
     t = d.get(('BODY', b'TEXT', None)) or b''
     if h + t != b:
@@ -174,18 +187,22 @@ _STRINGS = None
 
 
 def _work(args):
-    lo, hi, copies = args
+    lo, hi, copies = args[:3]
+    kind = args[3] if len(args) > 3 else 'dict'
+    pre = '' if kind == 'dict' else kind + ':'
     out = []
     n = 0
     refused = 0
     skipped = []
-    ctx = make_world()
+    make = lambda: make_world(kind)      # noqa: E731
+    ctx = make()
     try:
         for i in range(lo, hi):
             if (i - lo) % 150 == 149:
                 ctx.close()
-                ctx = make_world()
-            r = check_message(ctx, _STRINGS[i], out, copies=copies)
+                ctx = make()
+            r = check_message(ctx, _STRINGS[i], out, copies=copies,
+                              site_extra=pre)
             n += 1
             if r == 'refused':
                 refused += 1
@@ -193,7 +210,7 @@ def _work(args):
                     or ctx.session(0).done:
                 skipped.append(i)
                 ctx.close()
-                ctx = make_world()
+                ctx = make()
     finally:
         ctx.close()
     return out, n, refused, len(skipped)
@@ -213,6 +230,7 @@ def run(*, tier, seed, jobs, progress, opts):
     t0 = time.perf_counter()
     k = int(opts.get('k', 4 if tier == 'quick' else 5))
     strings = [m for m in E.token_messages(k) if m]
+    b0 = len(strings)
     strings += boundary_strings() + [m for m in E.bomb_messages()
                                      if m and len(m) < 60000][:30]
     _STRINGS = strings
@@ -224,9 +242,26 @@ def run(*, tier, seed, jobs, progress, opts):
     tasks = []
     for lo in range(0, n, chunk):
         tasks.append((lo, min(n, lo + chunk), lo < small or tier != 'quick'))
+    # the maildir backend (real files): all strings up to km tokens
+    km = int(opts.get('km', 3 if tier == 'quick' else 4))
+    n_m = sum(1 for m in E.token_messages(km) if m)
+    mplans = [('++', n_m)] if tier == 'quick' else \
+        [('++', n_m), ('fs', sum(1 for m in E.token_messages(3) if m))]
+    if opts.get('backend') == 'dict':
+        mplans = []
+    if opts.get('backend') == 'maildir':
+        tasks = []
+    mcount = 0
+    for layout, cnt in mplans:
+        step = max(50, cnt // (njobs * 4))
+        for lo in range(0, cnt, step):
+            tasks.append((lo, min(cnt, lo + step), lo < small, layout))
+        # the length-boundary strings too
+        tasks.append((b0, b0 + 18, False, layout))
+        mcount += cnt + 18
     violations = []
     total = refused = skipped = 0
-    with mp.get_context('fork').Pool(njobs) as pool:
+    with scratch_parent(), mp.get_context('fork').Pool(njobs) as pool:
         for vs, c, r, sk in pool.imap_unordered(_work, tasks):
             violations += vs
             total += c
@@ -235,6 +270,8 @@ def run(*, tier, seed, jobs, progress, opts):
     cov = {'evaluations': total, 'distinct_nontrivial': len(set(strings)),
            'tokens': [repr(t) for t in E.TOKENS[:-1]], 'max_tokens': k,
            'refused_by_append': refused,
+           'maildir': {'plans': [list(p) for p in mplans],
+                       'max_tokens': km, 'messages': mcount},
            'skipped_because_response_unparseable_or_connection_died': skipped,
            'partial_ranges_per_message': 20,
            'rule': ('all distinct concatenations of <= k tokens (k=4 quick, '
@@ -249,9 +286,9 @@ def run(*, tier, seed, jobs, progress, opts):
            'exhaustive': True}
     return finish(PROP, tier=tier, seed=seed, level='exploration',
                   coverage=cov, violations=violations, t0=t0, assumptions=[
-                      'dict backend in this check; strings over the token '
-                      'alphabet up to k tokens plus listed boundaries (not '
-                      'arbitrary 64 KiB contents)',
+                      'strings over the token alphabet up to k tokens (dict) '
+                      '/ km tokens (maildir, real files) plus listed '
+                      'boundaries (not arbitrary 64 KiB contents)',
                       'a zero-length literal is the MULTIAPPEND cancel, not a '
                       'message'])
 
